@@ -54,13 +54,24 @@ def main(argv):
         mod.setup(S, tier, seed)
     budget = float(os.environ.get("LCVERIF_SHARD_BUDGET_S", "0") or 0)
     truncated = False
+    early = []
+    nrevisit = getattr(mod, "REVISIT", 24)
     for k, case in enumerate(mod.cases(tier, seed)):
         if ((k * 0x9E3779B1) >> 7) % n != idx:      # scatter, so periodic heavy cases do not pile up on one shard
             continue
         if budget and time.time() - t0 > budget:
             truncated = True
             break
+        if len(early) < nrevisit:
+            early.append(case)
         run_case(mod, case, rep, S)
+    # the first cases of the shard are judged once more after everything else has run in this process: results
+    # that depend on how many objects / compositions / calls came before (bounded caches, recycled slots,
+    # counters) differ between the two visits
+    if not truncated:
+        for case in early[:max(0, min(len(early), rep.evaluations // 3))]:
+            rep.cnt("revisited_cases")
+            run_case(mod, case, rep, S)
     if hasattr(mod, "teardown"):
         mod.teardown(S)
     if truncated:
